@@ -36,6 +36,9 @@ CHECKS = {
  "C08": dict(design="3/C08", technique="metamorphic property-based testing (Hypothesis) over FAMILIES of runs of the real NVE integrator: dt / dt/2 / dt/4 refinement, forward / velocity-reversed pairs, long runs; invariants and bookkeeping read back from the HDF5 files; independent NumPy re-evaluation of the potential; CODATA reference for the acceleration constant",
              text="Stub-driven families (96 per quick run, each 5 runs of 20-6000 steps): linear and angular momentum constant (measured 5e-15), return to the start after velocity reversal (3e-15 A), position-error and energy-fluctuation ratios per halving in [3.0, 5.6] where the coarsest step resolves the fastest vibration (measured 4.00-4.01), no drift of the mean energy over 15 periods of the slowest mode, stored Ek / T / Ep equal to those of the stored velocities / coordinates of the same row, acceleration constant equal to the CODATA conversion to 1e-6 (measured 4e-8). SCF-driven sample (water, formaldehyde, ammonia; AM1/PM3): momentum, stored Ep and forces equal to an independent single point at the stored coordinates. Exploration.",
              note="Force field of the large families is an analytic stub; the coupling to the real Electronic_Structure is exercised by 32 short SCF-driven runs. Order and drift are asymptotic statements judged only in the resolved regime (labels order_resolved / drift_checked show how often). Excited-state surfaces are not run here."),
+ "C20": dict(design="3/C20", technique="property-based testing (Hypothesis) with a recording wrapper around the real optimiser step: per-iteration update / staleness / stop-condition invariants, metamorphic step-factor rule for descent, alone-vs-batch path differential, constructed boundary case cap == evaluations needed",
+             text="Generated distorted templates (1-2 molecules, optional padding) x step factors 1e-4..2e-2 x force tolerances x evaluation caps 1..40 (incl. the constructed case cap == needed) x 3 methods x 3 solvers. Per iteration: x_(i+1) - x_i = alpha F_i with F_i and E_i equal to a fresh single point at x_i, padding bitwise unmoved; the loop ends at the first max|F| <= tol or at the cap and the optimiser's own final line says converged / not converged accordingly; returned values are those of the last evaluation; an energy increase counts only if it persists at alpha/4 and alpha/16; a molecule's path equals its single-molecule path. Exploration, SCF-driven.",
+             note="Energies / forces are compared only for iterations whose SCF converged (large step factors can produce geometries where it does not). The 'reported not converged although the tolerance was reached on the last allowed evaluation' defect is recorded (repair under validation)."),
 }
 NOT_APPLICABLE = []
 def main():
